@@ -2,12 +2,12 @@
 
 AST (plain tuples, so programs hash, compare and shrink structurally)
 
-  expr  ("num", Fraction) | ("str", text, quoted) | ("bool", b) | ("null",) | ("var", name)
-        ("bin", op, a, b)  op in add sub mul mod eq ne lt gt le ge and or
+  expr  ("num", Fraction) | ("num", Fraction, unit) | ("str", text, quoted) | ("bool", b) | ("null",) | ("var", name)
+        ("bin", op, a, b)  op in add sub mul mod div eq ne lt gt le ge and or   (div: `/` spelled so that Sass divides)
         ("neg", a) | ("not", a) | ("list", (e…), sep, bracketed)   sep in "s" "c" "u"
         ("map", ((k, v)…)) | ("call", fname, (pos…), ((name, e)…), rest|None) | ("if", c, a, b)
         ("interp", quoted, ((text, e|None)…))
-  stmt  ("decl", prop, e) | ("rule", selector, body) | ("var", name, e, is_global, is_default)
+  stmt  ("decl", prop, e) | ("decli", ((text, e|None)…), e) | ("rule", selector, body) | ("var", name, e, is_global, is_default)
         ("ifs", ((cond, body)…), else_body|None) | ("for", var, lo, hi, inclusive, body)
         ("each", (vars…), e, body) | ("while", cond, body)
         ("func", name, params, body) | ("ret", e) | ("mixin", name, params, body)
@@ -55,6 +55,8 @@ def expr_tokens(e):
     k = e[0]
     if k == "num":
         q = Fraction(e[1])
+        if len(e) > 2 and e[2]:
+            return ["D", str(q.numerator), str(q.denominator), e[2]]
         return ["N", str(q.numerator), str(q.denominator)]
     if k == "str":
         return ["Q" if e[2] else "U", hx(e[1])]
@@ -122,6 +124,11 @@ def stmt_tokens(s):
     k = s[0]
     if k == "decl":
         return ["DECL", hx(s[1])] + expr_tokens(s[2])
+    if k == "decli":
+        out = ["DECLI", str(len(s[1]))]
+        for t, x in s[1]:
+            out += [hx(t)] + _opt(x, expr_tokens)
+        return out + expr_tokens(s[2])
     if k == "rule":
         return ["RULE", hx(s[1])] + block_tokens(s[2])
     if k == "var":
@@ -161,9 +168,9 @@ def to_tokens(prog):
 # ---------------------------------------------------------------------------------------------
 
 PREC = {"or": 1, "and": 2, "eq": 3, "ne": 3, "lt": 4, "gt": 4, "le": 4, "ge": 4,
-        "add": 5, "sub": 5, "mul": 6, "mod": 6}
+        "add": 5, "sub": 5, "mul": 6, "mod": 6, "div": 6}
 OPTXT = {"or": "or", "and": "and", "eq": "==", "ne": "!=", "lt": "<", "gt": ">", "le": "<=", "ge": ">=",
-         "add": "+", "sub": "-", "mul": "*", "mod": "%"}
+         "add": "+", "sub": "-", "mul": "*", "mod": "%", "div": "/"}
 P_COMMA, P_SPACE, P_UNARY, P_ATOM = -1, 0, 7, 9
 
 
@@ -188,6 +195,8 @@ def fmt_num(q):
 def prec_of(e):
     k = e[0]
     if k == "bin":
+        if e[1] == "div" and _slash_operand(e[2]) and _slash_operand(e[3]):
+            return P_ATOM       # printed with its own parentheses (see _ex)
         return PREC[e[1]]
     if k in ("neg", "not"):
         return P_UNARY
@@ -208,10 +217,20 @@ def ex(e, minp):
     return "(" + s + ")" if prec_of(e) < minp else s
 
 
+def _slash_operand(e):
+    """parse/value.rs:532 + ast/expr.rs:170: `a / b` is a slash-separated pair, not a division, when
+    both operands are number literals (or such pairs).  Our printer parenthesises exactly those
+    divisions (inside parentheses `/` always divides), so a printed operand is a slash operand only
+    if it is a number literal."""
+    if e[0] == "neg" and e[1][0] == "num" and Fraction(e[1][1]) >= 0:
+        return True             # `-10` printed from neg(10) is read back as the literal -10
+    return e[0] == "num"
+
+
 def _ex(e):
     k = e[0]
     if k == "num":
-        return fmt_num(e[1])
+        return fmt_num(e[1]) + (e[2] if len(e) > 2 else "")
     if k == "str":
         return '"' + e[1] + '"' if e[2] else e[1]
     if k == "bool":
@@ -222,7 +241,10 @@ def _ex(e):
         return "$" + e[1]
     if k == "bin":
         p = PREC[e[1]]
-        return ex(e[2], p) + " " + OPTXT[e[1]] + " " + ex(e[3], p + 1)
+        t = ex(e[2], p) + " " + OPTXT[e[1]] + " " + ex(e[3], p + 1)
+        if e[1] == "div" and _slash_operand(e[2]) and _slash_operand(e[3]):
+            return "(" + t + ")"
+        return t
     if k == "neg":
         # `-name(` and `-name` are identifiers in Sass, so a minus in front of anything that
         # starts with a letter needs parentheses
@@ -293,6 +315,9 @@ def _head(s):
     k = s[0]
     if k == "decl":
         return s[1] + ": " + ex(s[2], P_COMMA), None
+    if k == "decli":
+        name = "".join(t + ("#{" + ex(x, P_COMMA) + "}" if x is not None else "") for t, x in s[1])
+        return name + ": " + ex(s[2], P_COMMA), None
     if k == "rule":
         return s[1], s[2]
     if k == "var":
@@ -350,9 +375,14 @@ def scss_lines(body, ind, out):
             out.append(pad + "}")
 
 
+USE_MATH = '@use "sass:math"'
+
+
 def to_scss(prog):
     out = []
     scss_lines(prog, 0, out)
+    if any("math.div(" in l for l in out):
+        out.insert(0, USE_MATH + ";")
     return "\n".join(out) + "\n"
 
 
@@ -378,6 +408,8 @@ def sass_lines(body, ind, out):
 def to_sass(prog):
     out = []
     sass_lines(prog, 0, out)
+    if any("math.div(" in l for l in out):
+        out.insert(0, USE_MATH)
     return "\n".join(out) + "\n"
 
 
@@ -387,7 +419,11 @@ def to_sass(prog):
 
 WORDS = ["alpha", "beta", "gamma", "delta", "kappa", "sigma"]
 QWORDS = ["foo", "bar baz", "x1", "q-r", "", "w_z"]
-TYPES = ["num", "str", "bool", "list", "map"]
+TYPES = ["num", "str", "bool", "list", "map", "px", "em"]
+# "px" / "em": numbers with a unit — two type names, spelled with the two units picked per program
+UNIT_TYPES = ("px", "em")
+UNITS = ["px", "em", "rem", "%", "s", "deg", "vw", "fr"]       # = Grass.Eval.knownUnits (pairwise inconvertible)
+DYADIC_DIVISORS = [Fraction(2), Fraction(4), Fraction(-2), Fraction(1, 2), Fraction(8), Fraction(1)]
 DECIMALS = [Fraction(1, 2), Fraction(1, 4), Fraction(3, 4), Fraction(3, 2), Fraction(5, 2), Fraction(-1, 2)]
 
 
@@ -432,6 +468,8 @@ class Gen:
         self.error_done = False
         self.no_str_vars = False
         self.stop_range = (0, 3)
+        u = rng.sample(UNITS, 2)
+        self.units = {"px": u[0], "em": u[1]}
 
     # -- names --------------------------------------------------------------------------------
     def fresh(self, prefix):
@@ -454,6 +492,9 @@ class Gen:
     # -- expressions --------------------------------------------------------------------------
     def lit(self, ty):
         r = self.rng
+        if ty in UNIT_TYPES:
+            q = r.choice(DECIMALS) if r.random() < 0.2 else Fraction(r.randint(-4, 12))
+            return ("num", q, self.units[ty])
         if ty == "num":
             return ("num", r.choice(DECIMALS)) if r.random() < 0.2 else ("num", Fraction(r.randint(-6, 12)))
         if ty == "str":
@@ -479,9 +520,11 @@ class Gen:
         """An expression of static type `ty` (num str bool list map any)."""
         r = self.rng
         if ty == "any":
-            ty = r.choice(["num", "num", "str", "str", "bool", "list", "map", "null", "mixed"])
+            ty = r.choice(["num", "num", "str", "str", "bool", "list", "map", "null", "mixed", "px", "em"])
         if ty == "null":
             return ("null",)
+        if ty == "cunit":
+            return self.complex_unit(sc, max(d, 1), pure)
         if ty == "mixed":
             return self.mixed(sc, d, pure)
         vs = sc.lookup("vars", lambda n, t: t == ty)
@@ -499,7 +542,19 @@ class Gen:
         if r.random() < 0.08:
             self.features.add("if()")
             return ("if", self.expr(sc, "bool", d - 1, pure), self.expr(sc, ty, d - 1, pure), self.expr(sc, ty, d - 1, pure))
+        if ty in UNIT_TYPES:
+            return self.unit_expr(sc, ty, d, pure)
         if ty == "num":
+            c = r.random()
+            if c < 0.12:
+                # a quotient: same-unit operands give a unitless number; divisors are non-zero dyadic literals
+                self.features.add("div")
+                t = r.choice(["num", "px", "em"])
+                dv = r.choice(DYADIC_DIVISORS)
+                b = ("num", dv, self.units[t]) if t in UNIT_TYPES else ("num", dv)
+                if t != "num":
+                    self.features.add("div:unit/unit")
+                return self.div(self.expr(sc, t, d - 1, pure), b)
             c = r.random()
             if c < 0.6:
                 op = r.choice(["add", "add", "sub", "sub", "mul", "mod"])
@@ -526,26 +581,40 @@ class Gen:
                 return ("bin", "add", self.expr(sc, "num", d - 1, pure), self.expr(sc, "str", d - 1, pure))
             if c < 0.7:
                 self.features.add("interp")
-                parts = []
-                saved = self.no_str_vars
-                for _ in range(r.choice([1, 2])):
-                    t = r.choice(["num", "str", "bool"])
-                    parts.append((r.choice(["", "k", "m-", "t "]), self.expr(sc, t, d - 1, pure)))
-                    if t == "str":
-                        self.no_str_vars = True
-                self.no_str_vars = saved
-                parts.append((r.choice(["", "e"]), None))
-                return ("interp", True, tuple(parts))
+                quoted = r.random() < 0.6
+                if not quoted:
+                    self.features.add("interp-unquoted")
+                return ("interp", quoted, self.interp_parts(sc, d, pure, quoted))
             if c < 0.8:
                 self.features.add("builtin")
                 return ("call", "type-of", (self.expr(sc, "any", d - 1, pure),), (), None)
+            if c < 0.86:
+                self.features.add("unit()")
+                return ("call", "unit", (self.expr(sc, r.choice(["px", "em", "num", "cunit"]), d - 1, pure),), (), None)
+            if c < 0.92:
+                # inspect() of anything but a string (the result would contain quote characters)
+                self.features.add("inspect()")
+                return ("call", "inspect", (self.expr(sc, r.choice(["num", "px", "bool", "list", "map", "null", "cunit"]), d - 1, pure),), (), None)
             return self.lit("str")
         if ty == "bool":
             c = r.random()
+            if c < 0.08:
+                return self.exists_call(sc)
+            c = r.random()
             if c < 0.4:
-                return ("bin", r.choice(["lt", "gt", "le", "ge"]), self.expr(sc, "num", d - 1, pure), self.expr(sc, "num", d - 1, pure))
+                t = r.choice(["num", "num", "px", "em"])
+                if t != "num":
+                    self.features.add("units-compare")
+                    if r.random() < 0.3:
+                        # a unitless number compares with any unit
+                        return ("bin", r.choice(["lt", "gt", "le", "ge"]), self.expr(sc, t, d - 1, pure), self.expr(sc, "num", d - 1, pure))
+                return ("bin", r.choice(["lt", "gt", "le", "ge"]), self.expr(sc, t, d - 1, pure), self.expr(sc, t, d - 1, pure))
             if c < 0.6:
-                t = r.choice(["num", "str", "bool", "list"])
+                t = r.choice(["num", "str", "bool", "list", "px"])
+                if t == "px":
+                    self.features.add("units-equal")
+                    return ("bin", r.choice(["eq", "ne"]), self.expr(sc, "px", d - 1, pure),
+                            self.expr(sc, r.choice(["px", "px", "em", "num"]), d - 1, pure))
                 return ("bin", r.choice(["eq", "ne"]), self.expr(sc, t, d - 1, pure), self.expr(sc, t, d - 1, pure))
             if c < 0.8:
                 self.features.add("and/or")
@@ -568,10 +637,107 @@ class Gen:
             return self.lit("map")
         raise ValueError(ty)
 
+    # -- numbers with units, division ------------------------------------------------------------
+    def div(self, a, b):
+        """`a / b` as a division: the operator (the printer parenthesises it where Sass would read a
+        slash) or `math.div`."""
+        if self.rng.random() < 0.4:
+            self.features.add("math.div")
+            return ("call", "math.div", (a, b), (), None)
+        self.features.add("div:slash-literals" if (a[0] == "num" and b[0] == "num") else "div:operator")
+        return ("bin", "div", a, b)
+
+    def unit_expr(self, sc, ty, d, pure):
+        """A number in the unit of type `ty` (same-unit arithmetic only)."""
+        r = self.rng
+        self.features.add("units")
+        c = r.random()
+        if c < 0.3:
+            return ("bin", r.choice(["add", "sub"]), self.expr(sc, ty, d - 1, pure), self.expr(sc, ty, d - 1, pure))
+        if c < 0.38:
+            # a unitless operand takes the other operand's unit
+            a, b = self.expr(sc, ty, d - 1, pure), self.expr(sc, "num", d - 1, pure)
+            self.features.add("units:+unitless")
+            return ("bin", r.choice(["add", "sub"]), a, b) if r.random() < 0.5 else ("bin", "add", b, a)
+        if c < 0.5:
+            a, b = self.expr(sc, ty, d - 1, pure), self.expr(sc, "num", d - 1, pure)
+            self.features.add("units:mul")
+            return ("bin", "mul", a, b) if r.random() < 0.5 else ("bin", "mul", b, a)
+        if c < 0.64:
+            self.features.add("div")
+            self.features.add("div:unit/unitless")
+            return self.div(self.expr(sc, ty, d - 1, pure), ("num", r.choice(DYADIC_DIVISORS)))
+        if c < 0.72:
+            self.features.add("units:mod")
+            m = ("num", Fraction(r.choice([2, 3, 4, 5, -3])), self.units[ty]) if r.random() < 0.7 else ("num", Fraction(r.choice([2, 3, -3])))
+            return ("bin", "mod", self.expr(sc, ty, d - 1, pure), m)
+        if c < 0.8:
+            return ("neg", self.expr(sc, ty, d - 1, pure))
+        return self.lit(ty)
+
+    def complex_unit(self, sc, d, pure):
+        """A number whose unit is not a single unit: u*u, u*v, 1/u, v/u (printable by @debug, unit()
+        and inspect() only; in a declaration or an interpolation it is not a valid CSS value)."""
+        r = self.rng
+        self.features.add("units-complex")
+        a = self.expr(sc, r.choice(UNIT_TYPES), d - 1, pure)
+        c = r.random()
+        if c < 0.35:
+            return ("bin", "mul", a, self.expr(sc, r.choice(UNIT_TYPES), d - 1, pure))
+        if c < 0.7:
+            return self.div(self.expr(sc, "num", d - 1, pure), ("num", r.choice(DYADIC_DIVISORS), self.units[r.choice(UNIT_TYPES)]))
+        if c < 0.85:
+            # (u*v)/v cancels back to u, (u*u)/u to u
+            t = r.choice(UNIT_TYPES)
+            return self.div(("bin", "mul", a, self.expr(sc, t, d - 1, pure)), ("num", r.choice(DYADIC_DIVISORS), self.units[t]))
+        return self.div(a, ("num", r.choice(DYADIC_DIVISORS), self.units["em"]))
+
+    def interp_parts(self, sc, d, pure, quoted):
+        r = self.rng
+        parts = []
+        saved = self.no_str_vars
+        texts = ["", "k", "m-", "t "] if quoted else ["", "k", "m-", "w"]
+        for i in range(r.choice([1, 2])):
+            t = r.choice(["num", "str", "bool", "px", "list", "null", "strlist"])
+            if t == "strlist":
+                # quoted strings lose their quotes at every list level; null elements vanish
+                self.features.add("interp-list")
+                e = ("list", tuple(self.expr(sc, r.choice(["str", "str", "num", "null", "px"]), 0, pure) for _ in range(r.choice([2, 3]))),
+                     r.choice(["s", "c"]), r.random() < 0.2)
+            else:
+                if t == "list":
+                    self.features.add("interp-list")
+                e = self.expr(sc, t, d - 1, pure)
+            txt = r.choice(texts)
+            if not quoted and i == 0 and txt == "":
+                txt = "k"
+            parts.append((txt, e))
+            if t == "str":
+                self.no_str_vars = True
+        self.no_str_vars = saved
+        parts.append((r.choice(["", "e"]), None))
+        return tuple(parts)
+
+    def exists_call(self, sc):
+        """variable-exists / global-variable-exists / function-exists / mixin-exists on a visible or an
+        unknown name, spelled with either quote style and either `-`/`_`."""
+        r = self.rng
+        self.features.add("meta-exists")
+        k = r.choice(["variable-exists", "variable-exists", "global-variable-exists", "function-exists", "mixin-exists"])
+        if k in ("variable-exists", "global-variable-exists"):
+            names = [n for n, _ in sc.lookup("vars")] + ["nope", "a-b", "g1"]
+        elif k == "function-exists":
+            names = [n for n, _ in sc.lookup("fns")] + ["nofn1", "length", "nofn-x"]
+        else:
+            names = [n for n, _ in sc.lookup("mixins")] + ["nomx"]
+        return ("call", k, (("str", self.sp(r.choice(names)), r.random() < 0.5),), (), None)
+
     def mixed(self, sc, d, pure):
         """Expressions whose static type is a union: short-circuit operators over non-booleans,
         nested lists, map-get, nth, if() with different branches."""
         r = self.rng
+        if r.random() < 0.12:
+            return self.complex_unit(sc, d, pure)
         c = r.random()
         if c < 0.35:
             self.features.add("and/or")
@@ -687,11 +853,20 @@ class Gen:
         inner = Scope(sc, "callable")
         for i in range(n):
             name = r.choice(["p", "q", "r", "s", "t"]) + str(i)
-            ty = r.choice(["num", "num", "str", "bool"])
+            ty = r.choice(["num", "num", "str", "bool", "px"])
             dflt = None
             if seen_default or r.random() < 0.3:
                 seen_default = True
-                dflt = self.expr(inner, ty, 1, pure=True)
+                earlier = [n for n, t in inner.vars.items() if t == ty]
+                if earlier and r.random() < 0.4:
+                    # a default that refers to an earlier parameter (evaluated in the callee's scope)
+                    dflt = ("var", r.choice(earlier))
+                    if ty in ("num", "px") and r.random() < 0.5:
+                        dflt = ("bin", "add", dflt, self.lit(ty))
+                else:
+                    dflt = self.expr(inner, ty, 1, pure=True)
+                if has_var(dflt):
+                    self.features.add("default-refs-param")
                 self.features.add("default-arg")
             ps.append((name, dflt))
             ptypes[name] = ty
@@ -751,9 +926,20 @@ class Gen:
             known = dict(sc.lookup("vars")).get(name)
             if known is not None and known not in TYPES:
                 return None
-            ty = known or r.choice(["num", "num", "num", "str", "bool", "list", "map"])
+            ty = known or r.choice(["num", "num", "num", "str", "bool", "list", "map", "px", "px", "em"])
             glob = r.random() < 0.15
             dflt = r.random() < 0.12
+            if known is None and not ctx.get("at_root") and r.random() < 0.04:
+                # `!global` from a nested scope creates a NEW global (env.rs:341 insert_var: global scope)
+                gname = self.fresh("gn")
+                self.features.add("!global-new")
+                return [("var", gname, self.expr(sc, ty, d), True, False), ("debug", ("var", gname))]
+            if known is None and r.random() < 0.06:
+                # `!default` assigns when the variable is null
+                self.features.add("!default-null")
+                sc.vars[name] = ty
+                return [("var", self.sp(name), ("null",), False, False), ("var", self.sp(name), self.expr(sc, ty, d), False, True),
+                        ("debug", ("var", self.sp(name)))]
             if glob:
                 # `!global` only on the pre-declared globals g1 (number) and g2 (string), so that
                 # later reads are defined whichever branches ran
@@ -782,9 +968,17 @@ class Gen:
         if k == "debug":
             return [("debug", self.expr(sc, "any", d))]
         if k == "warn":
-            return [("warn", self.expr(sc, r.choice(["num", "str", "bool", "list"]), d))]
+            return [("warn", self.expr(sc, r.choice(["num", "str", "bool", "list", "px"]), d))]
         if k == "decl":
-            return [("decl", r.choice(["p", "q", "margin", "width", "m-n"]), self.expr(sc, r.choice(["num", "str", "bool", "list", "mixed"]), d))]
+            v = self.expr(sc, r.choice(["num", "str", "bool", "list", "mixed", "px", "em"]), d)
+            if r.random() < 0.12:
+                # interpolated property name: text and `#{…}` pieces (identifier characters only)
+                self.features.add("decl-interp-name")
+                pieces = [(r.choice(["p-", "w", "m-n-"]), r.choice([("str", r.choice(WORDS), r.random() < 0.5), ("num", Fraction(r.randint(0, 9))),
+                                                                  self.expr(sc, "str", 1, True)])),
+                          (r.choice(["", "-z"]), None)]
+                return [("decli", tuple(pieces), v)]
+            return [("decl", r.choice(["p", "q", "margin", "width", "m-n"]), v)]
         if k == "rule":
             inner = Scope(sc)
             c2 = dict(ctx, in_rule=True)
@@ -881,7 +1075,7 @@ class Gen:
             self.features.add("@function")
             name = self.fresh("f")
             params, ptypes, inner = self.params(sc, d)
-            ret = r.choice(["num", "num", "str", "bool"])
+            ret = r.choice(["num", "num", "str", "bool", "px"])
             c2 = dict(in_rule=False, in_fn=True, in_mixin=False, ret=ret, in_callable_or_ctl=True)
             body = self.rest_prefix(params, ptypes) + self.block(inner, min(depth - 1, 2), c2, 0, 3)
             body = body + (("ret", self.expr(inner, ret, d)),)
@@ -951,7 +1145,8 @@ class Gen:
     def bad_stmt(self, sc, depth, ctx):
         """A deliberately erroneous statement (compared by error class)."""
         r = self.rng
-        kinds = ["undef-var", "undef-var", "undef-mixin", "arity", "arity", "user-error", "for-nonint"]
+        kinds = ["undef-var", "undef-var", "undef-mixin", "arity", "arity", "user-error", "for-nonint", "incompatible-units",
+                 "incompatible-units"]
         if ctx["in_rule"] and not ctx["in_fn"]:
             kinds += ["invalid-css"]
         if not ctx["in_fn"]:
@@ -962,6 +1157,11 @@ class Gen:
         self.features.add("error:" + k)
         if k == "undef-var":
             return [("debug", ("bin", "add", ("var", "nope"), ("num", Fraction(1))))]
+        if k == "incompatible-units":
+            a, b = self.expr(sc, "px", 1), self.expr(sc, "em", 1)
+            if r.random() < 0.5:
+                a, b = b, a
+            return [("debug", ("bin", r.choice(["add", "sub", "mod", "lt", "ge"]), a, b))]
         if k == "undef-mixin":
             if ctx["in_fn"]:
                 return [("debug", ("var", "nope"))]
@@ -995,10 +1195,14 @@ class Gen:
         return None
 
 
+BUILTIN_NAMES = ("length", "nth", "map-get", "type-of", "list-separator", "keywords", "math.div", "unit", "unitless",
+                 "inspect", "variable-exists", "global-variable-exists", "function-exists", "mixin-exists")
+
+
 def has_user_call(e):
     if not isinstance(e, tuple):
         return False
-    if e and e[0] == "call" and e[1] not in ("length", "nth", "map-get", "type-of", "list-separator", "keywords"):
+    if e and e[0] == "call" and e[1] not in BUILTIN_NAMES:
         return True
     return any(has_user_call(x) for x in e if isinstance(x, tuple))
 
@@ -1403,6 +1607,12 @@ def expr_variants(e):
         subs = [e[2], e[3], e[1]]
     elif k == "interp":
         subs = [x for _, x in e[2] if x is not None]
+        for i, (t, x) in enumerate(e[2]):
+            if x is not None:
+                for v in expr_variants(x):
+                    yield ("interp", e[1], e[2][:i] + ((t, v),) + e[2][i + 1:])
+    elif k == "num" and len(e) > 2:
+        yield ("num", e[1])
     for x in subs:
         yield x
     if k not in ("num", "bool", "null", "str", "var"):
@@ -1452,6 +1662,14 @@ def stmt_variants(s):
     if k in ("decl",):
         for v in expr_variants(s[2]):
             yield (k, s[1], v)
+    elif k == "decli":
+        yield ("decl", "p", s[2])
+        for v in expr_variants(s[2]):
+            yield (k, s[1], v)
+        for i, (t, x) in enumerate(s[1]):
+            if x is not None:
+                for v in expr_variants(x):
+                    yield (k, s[1][:i] + ((t, v),) + s[1][i + 1:], s[2])
     elif k == "rule":
         for b in body_variants(s[2]):
             yield (k, s[1], b)
